@@ -32,7 +32,7 @@ CLAIMS = {
         technique="Lean 4 proof (structEq => equal hash by induction) + exact-value differential correspondence",
         engine="lean-model + t1-behaviour", ref="DESIGN.md §6 C04"),
     "C05": dict(
-        text="Lean theorems about the allocation-threading model of deriveDeepCopy/deriveClone: the result is structurally equal to the source incl. nil-ness; every address of the result is either memory of the prior destination or freshly allocated, hence disjoint from the source; the result is tree-shaped; writes through either side are invisible through the other; no panic under the property's precondition — for all supported types, sources and tree-shaped disjoint prior destinations. Tied by exact match of the canonically numbered destination heap (same reuse of the prior destination's memory, same fresh allocations) between emitted code and model, plus memory-range disjointness, reflect.DeepEqual and source-unchanged observed on the real run.",
+        text="Lean theorems about the allocation-threading model of deriveDeepCopy/deriveClone: the result is structurally equal to the source incl. nil-ness (Go's equality, NaN-free sources) and, for every source incl. NaN leaves and NaN map keys, of the same shape and bits (Spec.shapeEq: leaves bit for bit, map entries paired one to one; implies the former on NaN-free values); every address of the result is either memory of the prior destination or freshly allocated, hence disjoint from the source; the result is tree-shaped; writes through either side are invisible through the other; no panic under the property's precondition — for all supported types, sources and tree-shaped disjoint prior destinations. Tied by exact match of the canonically numbered destination heap (same reuse of the prior destination's memory, same fresh allocations) between emitted code and model, plus memory-range disjointness, reflect.DeepEqual or bit-identical shape (rt.ShapeEqual, which judges sources holding a NaN) and source-unchanged observed on the real run.",
         note="'source unchanged' is carried by the tie; user DeepCopy methods not in the corpus; slices of zero-size elements excluded (no observable identity)",
         technique="Lean 4 proof (freshness/equality/tree-shape by joint induction) + heap-shape differential correspondence",
         engine="lean-model + t1-behaviour", ref="DESIGN.md §6 C05"),
